@@ -184,7 +184,7 @@ func lex(s string) ([]token, error) {
 			}
 			toks = append(toks, token{kind: tokString, text: str, pos: i, end: ni})
 			i = ni
-		case isDigit(c) || c == '.' && i+1 < len(s) && isDigit(s[i+1]) && !(len(toks) > 0 && toks[len(toks)-1].end == i && (toks[len(toks)-1].kind == tokIdent || toks[len(toks)-1].kind == tokQIdent || toks[len(toks)-1].text == ")" || toks[len(toks)-1].text == "]")):
+		case isDigit(c) || c == '.' && i+1 < len(s) && isDigit(s[i+1]) && !(len(toks) > 0 && toks[len(toks)-1].end == i && (toks[len(toks)-1].kind == tokIdent || toks[len(toks)-1].kind == tokQIdent || toks[len(toks)-1].kind == tokNumber || toks[len(toks)-1].text == ")" || toks[len(toks)-1].text == "]")):
 			st := i
 			if prevAllowsTupleIndex() {
 				for i < len(s) && isDigit(s[i]) {
